@@ -561,6 +561,7 @@ Proof.
   - split; [intros H; subst; auto|intros H; inversion H; auto].
   - split; [intros H; subst; auto|intros H; inversion H; auto].
   - split; [intros [H1 H2]; subst; auto|intros H; inversion H; auto].
+  - split; [intros H; subst; auto|intros H; inversion H; auto].
 Qed.
 
 Notation wfi := (@wf loc Z).
@@ -1276,4 +1277,105 @@ Qed.
 Lemma omp_static_exactly_once (n nt : nat) (l : list nat) : 0 < nt -> Merge (omp_static n nt) l -> Permutation l (seq 0 n).
 Proof.
   intros Hnt HM. destruct (omp_static_spec n nt Hnt) as [Hc _]. rewrite <- Hc. symmetry. apply merge_perm. exact HM.
+Qed.
+
+(* =========================================================================================== *)
+(* 12. Biases with private accumulated state; a bias that reads the other biases' energies       *)
+(* =========================================================================================== *)
+Lemma wf_acc_bias p : wfi (acc_bias_item p).
+Proof.
+  intros s s' H l Hl. cbn [writes acc_bias_item] in Hl. cbn [reads acc_bias_item] in H. cbn [act acc_bias_item].
+  assert (Hst : s (LBiasState (fst p)) = s' (LBiasState (fst p))) by (apply H; left; reflexivity).
+  assert (Hx : forall i, i < length (b_vars (snd p)) -> bias_x (snd p) s i = bias_x (snd p) s' i).
+  { intros i Hi. apply bias_x_ext; auto. intros l0 Hl0. apply H. right. exact Hl0. }
+  destruct Hl as [Hl|[Hl|Hl]].
+  - subst. rewrite Hst. reflexivity.
+  - subst. rewrite Hst. f_equal. apply zsum_map_ext. intros i Hi. rewrite in_seq in Hi. apply Hx. lia.
+  - rewrite in_map_iff in Hl. destruct Hl as (i & E & Hi). subst. rewrite Hst. reflexivity.
+Qed.
+
+Lemma acc_writes_shape (p : nat * bias) l : In l (writes (acc_bias_item p)) ->
+  l = LBiasE (fst p) \/ l = LBiasState (fst p) \/ exists i, l = LBiasF (fst p) i.
+Proof.
+  cbn [writes acc_bias_item]. intros [H|[H|H]]; auto. right. right. rewrite in_map_iff in H. destruct H as (i & E & _). eauto.
+Qed.
+Lemma acc_reads_shape (p : nat * bias) l : In l (reads (acc_bias_item p)) -> l = LBiasState (fst p) \/ exists v, l = LX v.
+Proof.
+  cbn [reads acc_bias_item]. intros [H|H]; auto. right. rewrite in_map_iff in H. destruct H as (v & E & _). eauto.
+Qed.
+Lemma bias_writes_shape (p : nat * bias) l : In l (writes (bias_item p)) -> l = LBiasE (fst p) \/ exists i, l = LBiasF (fst p) i.
+Proof.
+  cbn [writes bias_item]. intros [H|H]; auto. right. rewrite in_map_iff in H. destruct H as (i & E & _). eauto.
+Qed.
+Lemma bias_reads_shape (p : nat * bias) l : In l (reads (bias_item p)) -> exists v, l = LX v.
+Proof. cbn [reads bias_item]. intros H. rewrite in_map_iff in H. destruct H as (v & E & _). eauto. Qed.
+
+Lemma any_writes_shape st (p : nat * bias) l : In l (writes (any_bias_item st p)) ->
+  l = LBiasE (fst p) \/ l = LBiasState (fst p) \/ exists i, l = LBiasF (fst p) i.
+Proof.
+  unfold any_bias_item. destruct (st (fst p)); intros H.
+  - apply acc_writes_shape; auto.
+  - apply bias_writes_shape in H. destruct H as [H|H]; auto.
+Qed.
+Lemma any_reads_shape st (p : nat * bias) l : In l (reads (any_bias_item st p)) -> l = LBiasState (fst p) \/ exists v, l = LX v.
+Proof.
+  unfold any_bias_item. destruct (st (fst p)); intros H.
+  - apply acc_reads_shape; auto.
+  - right. apply bias_reads_shape in H. auto.
+Qed.
+
+(* biases of either sort with distinct indices are independent: each writes only its own energy, forces and state *)
+Lemma indep_any_bias st p q : fst p <> fst q -> indepi (any_bias_item st p) (any_bias_item st q).
+Proof.
+  intros Hne. unfold indep. split; [|split].
+  - intros l Hl Hl'. apply any_writes_shape in Hl. apply any_writes_shape in Hl'.
+    destruct Hl as [Hl|[Hl|[i Hl]]]; destruct Hl' as [Hl'|[Hl'|[j Hl']]]; subst; try discriminate; inversion Hl'; auto.
+  - intros l Hl Hl'. apply any_writes_shape in Hl. apply any_reads_shape in Hl'.
+    destruct Hl as [Hl|[Hl|[i Hl]]]; destruct Hl' as [Hl'|[v Hl']]; subst; try discriminate. inversion Hl'; auto.
+  - intros l Hl Hl'. apply any_writes_shape in Hl. apply any_reads_shape in Hl'.
+    destruct Hl as [Hl|[Hl|[i Hl]]]; destruct Hl' as [Hl'|[v Hl']]; subst; try discriminate. inversion Hl'; auto.
+Qed.
+
+Lemma wf_any_bias st p : wfi (any_bias_item st p).
+Proof. unfold any_bias_item. destruct (st (fst p)); [apply wf_acc_bias|apply wf_bias]. Qed.
+
+Lemma mixed_bias_items_independent (st : nat -> bool) (abs : list (nat * bias)) : NoDup (map fst abs) ->
+  Forall wfi (map (any_bias_item st) abs) /\ Pairwise indepi (map (any_bias_item st) abs).
+Proof.
+  intros Hnd. split.
+  - apply Forall_map_wf. intros a. apply wf_any_bias.
+  - apply Pairwise_map_NoDup.
+    + eapply NoDup_map_inv; eauto.
+    + intros a b Ha Hb Hne. apply indep_any_bias. intros E. apply Hne.
+      clear - Hnd Ha Hb E. induction abs as [|x r IH]; [inversion Ha|].
+      cbn [map] in Hnd. inversion Hnd as [|y l Hni Hnd']; subst.
+      destruct Ha as [Ha|Ha]; destruct Hb as [Hb|Hb]; subst; auto.
+      * exfalso. apply Hni. rewrite E. apply in_map; auto.
+      * exfalso. apply Hni. rewrite <- E. apply in_map; auto.
+Qed.
+
+(* hence any order of a bias loop that mixes stateless and stateful biases gives the same store *)
+Lemma mixed_bias_loop_order_independent (st : nat -> bool) (abs : list (nat * bias)) (ob : list nat) (s : store) :
+  NoDup (map fst abs) -> Permutation ob (seq 0 (length abs)) ->
+  seqi (runi (pick (map (any_bias_item st) abs) ob) s) (runi (map (any_bias_item st) abs) s).
+Proof.
+  intros Hnd HP. destruct (mixed_bias_items_independent st abs Hnd) as [Hw Hi].
+  apply seq_eq_sym. apply (run_perm loc_eqb loc_eqb_spec); auto. symmetry. apply pick_perm. rewrite map_length. exact HP.
+Qed.
+
+(* a bias that adds the OTHER biases' energies to its deposit reads what they write in the same loop: it is not independent
+   of them, and the two orders of the loop give different stores *)
+Lemma cross_item_read_not_independent (a b : sitem) (l : loc) : In l (reads a) -> In l (writes b) -> ~ indepi b a.
+Proof. intros Hr Hw (_ & H & _). exact (H l Hw Hr). Qed.
+
+Lemma extra_bias_order_dependent :
+  let opes := extra_bias_item [1] (0, mkBias 1 [0] 1 [0%Z]) in
+  let harm := bias_item (1, mkBias 1 [0] 2 [0%Z]) in
+  let s0 : store := fun l => match l with LX 0 => 3%Z | _ => 0%Z end in
+  ~ indepi harm opes /\
+  runi [opes; harm] s0 (LBiasState 0) = 3%Z /\ runi [harm; opes] s0 (LBiasState 0) = 21%Z.
+Proof.
+  cbv zeta. split.
+  - apply (cross_item_read_not_independent _ _ (LBiasE 1)); cbn; auto.
+  - vm_compute. split; reflexivity.
 Qed.
